@@ -6,7 +6,8 @@
           on the Rule side the flag selects ModuleNameRegexFilter vs ModuleNameFilter
   C05.R2  matcher (rules/c05_matcher.py): the layer mapping handed to the detector is rebuilt for all layers; lookups into the regex
           conversion map (built from the rule's subjects and objects only) are total; that map contains the conversions of both
-          sides on every path; nothing but the layer detector is built
+          sides on every path; nothing but the layer detector is built; the LayerMapping served by LayeredArchitecture.layer_mapping is
+          current (built per access, a live view, or a stored snapshot that every method assigning modules to a layer invalidates)
   C05.R3  detector (rules/c05_detector.py + c05_shapes.py): reported 'other' dependencies passed the same-layer filter, which drops
           same-layer pairs and nothing else; every "is there any other access" decision is made on filtered pairs
   C05.R4  a requirement is judged per layer: missing dependencies are reported only when no pair of the (object) layer is realised;
@@ -33,7 +34,7 @@ from core.loader import FuncInfo, Repo, ancestors, header, norm, own_nodes, pare
 from core.report import Result
 
 from .c05_detector import check_detector
-from .c05_lowering import check_are_named, check_delegation, check_filter_selection, check_matcher_wiring
+from .c05_lowering import check_are_named, check_delegation, check_filter_selection, check_layer_mapping_current, check_matcher_wiring
 from .c05_matcher import check_conversion_map_complete, check_layer_mapping_update, check_regex_resolution_per_evaluation
 from .c05_names import check_layer_lookup_names
 from .common import dotted, stmt_of, where
@@ -145,6 +146,7 @@ def run(repo: Repo) -> Result:
     # ---- R1
     check_delegation(repo, res)
     check_matcher_wiring(repo, res)
+    check_layer_mapping_current(repo, res)
     receiver = check_are_named(repo, res)
     check_filter_selection(repo, res, receiver)
     # ---- R6
